@@ -121,6 +121,17 @@ class Check:
     def write_evidence(self, nviol):
         total = sum(self.rule_counts.values())
         discharged = total - len(self.violations)
+        if not self.explanation:
+            try:
+                man = json.loads((VERIF / 'MANIFEST.json').read_text())
+                for c in man.get('checks', []):
+                    if c['property_id'] == self.pid:
+                        self.explanation = ('Decided statically (no repository code is executed): ' + c['level_claimed']['text']
+                                            + ' Trusted / not decided: ' + c['level_note'])
+            except Exception:
+                pass
+        if not self.explanation:
+            self.explanation = 'static analysis of /repo sources; see DESIGN.md'
         cov = {
             'explanation': self.explanation,
             'obligations': total,
